@@ -10,6 +10,7 @@
 #define STUBS_HUFF_H
 #include "verif_common.h"
 
+#if defined(STUBS_UA) || defined(UA_PROVE)
 #ifdef UA_PROVE
 #define UA_RMEM(p, n) __CPROVER_is_fresh(p, n)
 #define UA_WMEM(p, n) __CPROVER_is_fresh(p, n)
@@ -45,5 +46,77 @@
         __CPROVER_assigns(__CPROVER_object_upto(buf, 4))                                           \
         __CPROVER_ensures(UA_ST32(buf, val))
 #define C_store_le_u32 C_store_native_u32
+#endif /* STUBS_UA || UA_PROVE */
+
+#ifdef STUBS_HASH
+/* ---- isal_deflate_hash_lvl0..3 (igzip_deflate_hash.asm through igzip_multibinary.asm): ASSUMED ----
+ * Recorded uninterpreted routine: the stub records its arguments and which level entry was called.  The new
+ * values of the hash heads are NOT modelled (no contract here states anything about the table after
+ * hashing; a havoc of a symbolic-length slice inside struct isal_dict overflows CBMC's simplifier).  Its requires clauses are CHECKED at the call
+ * sites: dictionary readable for dict_len bytes, table writable for hash_mask+1 heads, and every one of
+ * those heads is 0xffff on entry (ghost index g_hi) -- "-1 = no previous occurrence" for the heads that
+ * hashing does not set. */
+extern uint16_t *w_h_table;
+extern uint8_t *w_h_dict;
+extern uint32_t w_h_mask, w_h_index, w_h_len, w_h_lvl, w_h_calls;
+extern uint32_t g_hi;
+#define HASH_STUB(NAME, LVL)                                                                       \
+        void NAME(uint16_t *hash_table, uint32_t hash_mask, uint32_t current_index, uint8_t *dict, \
+                  uint32_t dict_len)                                                               \
+                __CPROVER_requires(hash_mask < 0x10000 && __CPROVER_r_ok(dict, dict_len))          \
+                __CPROVER_requires(__CPROVER_w_ok(hash_table, ((size_t) hash_mask + 1) * 2))       \
+                __CPROVER_requires(g_hi <= hash_mask ==> hash_table[g_hi] == 0xffff)               \
+                __CPROVER_assigns(w_h_table, w_h_dict, w_h_mask, w_h_index, w_h_len, w_h_lvl, w_h_calls) \
+                __CPROVER_ensures(w_h_table == hash_table && w_h_mask == hash_mask &&              \
+                                  w_h_index == current_index && w_h_dict == dict && w_h_len == dict_len && \
+                                  w_h_lvl == (LVL) && w_h_calls == __CPROVER_old(w_h_calls) + 1)
+/* clang-format off */
+HASH_STUB(isal_deflate_hash_lvl0, 0);
+HASH_STUB(isal_deflate_hash_lvl1, 1);
+HASH_STUB(isal_deflate_hash_lvl2, 2);
+HASH_STUB(isal_deflate_hash_lvl3, 3);
+/* clang-format on */
+#endif
+
+#ifdef STUBS_MEMCPY
+/* ---- memcpy: TRUSTED recorded model of C11 7.24.2.1 ("copies n characters from s2 into s1").
+ * CBMC's built-in model (and any contract that havocs a slice of symbolic length) overflows the simplifier /
+ * runs out of memory for a symbolic n into the 64 KiB buffer inside struct isal_zstream.  This model
+ *   - asserts that [dst,dst+n) is writable, [src,src+n) readable and that the ranges do not overlap,
+ *   - records (dst, src, n) of call number k (k = 0, 1) in w_mc_dst[k], w_mc_src[k], w_mc_n[k] and counts
+ *     the calls, so that the caller's contract can demand "exactly one copy, of exactly these n bytes, from
+ *     exactly this source position to exactly this destination",
+ *   - copies the byte at the unconstrained ghost position g_m0 (< n) -- every byte write of the real memcpy
+ *     is represented, so the frame (assigns) check of the caller sees a write at an arbitrary offset < n, and
+ *     a postcondition that observes the destination at a position tied to g_m0 sees the copied value.
+ * It is NOT a model for postconditions about fixed positions; none of the contracts using it has one.
+ * The harness TU redirects memcpy to this function with a macro around the #include of the source file. */
+extern size_t g_m0;
+extern void *w_mc_dst[2];
+extern const void *w_mc_src[2];
+extern size_t w_mc_n[2];
+extern uint32_t w_mc_calls;
+static inline void *
+lz_memcpy(void *dst, const void *src, size_t n)
+{
+        __CPROVER_assert(__CPROVER_w_ok(dst, n), "memcpy: destination range writable");
+        __CPROVER_assert(__CPROVER_r_ok(src, n), "memcpy: source range readable");
+        __CPROVER_assert(n == 0 || !__CPROVER_same_object(dst, src) ||
+                                 __CPROVER_POINTER_OFFSET(dst) + n <= __CPROVER_POINTER_OFFSET(src) ||
+                                 __CPROVER_POINTER_OFFSET(src) + n <= __CPROVER_POINTER_OFFSET(dst),
+                         "memcpy: ranges do not overlap");
+        if (w_mc_calls < 2) {
+                w_mc_dst[w_mc_calls] = dst;
+                w_mc_src[w_mc_calls] = src;
+                w_mc_n[w_mc_calls] = n;
+        }
+        w_mc_calls++;
+#ifndef LZ_MEMCPY_NO_DATA
+        if (g_m0 < n)
+                ((uint8_t *) dst)[g_m0] = ((const uint8_t *) src)[g_m0];
+#endif
+        return dst;
+}
+#endif
 
 #endif
